@@ -34,7 +34,7 @@ def gates(tier):
         "shapes": {c: 3 * k for c in ["eps_rule", "nullable_cycle", "unary_cycle", "unary_cycle_via_nullable", "useless_symbol",
                                       "start_on_rhs", "long_body", "sr:Q", "sr:Poly", "sr:Boolean", "sr:MaxTimes", "sr:Real",
                                       "T:trim", "T:cnf", "T:nullaryremove", "T:unaryremove", "T:unarycycleremove", "T:unfold",
-                                      "T:binarize", "T:separate_start", "T:separate_terminals", "T:rename", "T:renumber", "names:int0", "names:tuple0", "scale:big-grammar"]},
+                                      "T:binarize", "T:separate_start", "T:separate_terminals", "T:rename", "T:renumber", "names:int0", "names:tuple0", "scale:big-grammar", "scale:wide-nullable-body", "scale:unary-ring"]},
         "min_hashseeds": 2,
     }
 
